@@ -1,0 +1,7 @@
+//go:build verif
+
+package cli
+
+// VerifReadConfig exposes readConfig (the place where the discard_overflow default is
+// applied) to the verification harness. Compiled only with the `verif` build tag.
+func VerifReadConfig(args []string) *CliConfig { return readConfig(args) }
